@@ -1,6 +1,6 @@
 (* C18 — Type/class codes map one-to-one and query matching is exact.
    Property theorems only: each is closed by `exact`, pinned by `Check`, and audited by `Print Assumptions`. *)
-Require Import SD.Base SD.Codes SD.CodesProofs.
+Require Import SD.Base SD.Codes SD.CodesProofs SD.RData SD.Packet SD.Framing.
 
 (* all 65 536 codes: TYPE::from then u16::from is the identity *)
 Theorem C18_type_code_roundtrip : forall c, c < 65536 -> code_of_type (type_of_code c) = c.
@@ -84,3 +84,15 @@ Theorem C18_match_qclass : forall rc q, match_qclass rc q = true <-> (q = QC_ANY
 Proof. exact match_qclass_spec. Qed.
 Check C18_match_qclass : forall rc q, match_qclass rc q = true <-> (q = QC_ANY \/ q = QC rc).
 Print Assumptions C18_match_qclass.
+
+(* the type reported for a parsed record is the one its TYPE field denotes, including NULL (10) and unknown codes *)
+Theorem C18_parsed_type : forall d p rd e, parse_rdata d p = Ok (rd, e) ->
+  exists tc, be_at d p 2 = Some tc /\ type_of_rdata rd = type_of_code tc.
+Proof.
+  intros d p rd e H. destruct (parse_rdata_cursor d p rd e H) as (tc & rl & Ht & _ & _ & _ & Hty). exists tc. split; assumption.
+Qed.
+Print Assumptions C18_parsed_type.
+(* ... and for a record built as RData::NULL(code, data) *)
+Theorem C18_null_type : forall c bs, type_of_rdata (RD_null c bs) = type_of_code c.
+Proof. reflexivity. Qed.
+Print Assumptions C18_null_type.
